@@ -303,10 +303,21 @@ static void worker(int tid, std::vector<Rec>* recs, std::vector<NvRec>* nvs, Tok
         for (auto& x : w) r.text += (r.text.empty() ? "" : " ") + x;
         std::ostringstream o;
         const std::string& op = w[0];
+        bool max_sessions = false;
         if (op == "enter") {
-            o << st(enter(tok));
+            Token nt{};
+            auto rc = enter(nt);
+            o << st(rc);
+            if (rc == status::OK) {
+                tok = nt;
+                auto* base = reinterpret_cast<const char*>(&thread_info_table::get_thread_info_table()[0]);
+                o << " slot " << (reinterpret_cast<const char*>(nt) - base) / static_cast<long>(sizeof(thread_info));
+            } else {
+                max_sessions = true;
+            }
         } else if (op == "leave") {
-            o << st(leave(tok));
+            if (tok == nullptr) o << "no-session";
+            else o << st(leave(tok));
             tok = nullptr;
             held.clear();
         } else if (op == "put") {
@@ -390,6 +401,11 @@ static void worker(int tid, std::vector<Rec>* recs, std::vector<NvRec>* nvs, Tok
             o << "held " << held.size() << " changed " << bad;
         } else {
             o << "bad-op";
+        }
+        if (sched::keep_trace && sched::active.load()) {
+            // operation boundary for the trace acceptors (value 1: enter returned WARN_MAX_SESSIONS)
+            std::unique_lock<std::mutex> lk(sched::mu);
+            sched::trace.push_back({sched::step_no, tid, yakushima::verif::k_note, 100, nullptr, max_sessions ? 1ULL : 0ULL});
         }
         r.ret = sched::now();
         r.result = o.str();
